@@ -35,8 +35,9 @@ ASSUMPTIONS = [
     "pylops.LinearOperator is replaced by a no-op stand-in base class (harness process only)",
 ]
 BOUNDS = {
-    "quick": "dft: all masks with <= 8 cells (all shapes incl. 1xN, Nx1) x 6 geometries (3 pixel-scale pairs x 2 "
-             "origins) plus all masks with exactly 9 cells (1x9, 3x3, 9x1) x 1 anisotropic off-origin geometry; 7 "
+    "quick": "dft: all masks with <= 6 cells (all shapes incl. 1xN, Nx1) x 6 geometries (3 pixel-scale pairs x 2 "
+             "origins), all masks with 7..8 cells x 3 geometries (one per pixel-scale pair, zero and non-zero origin) and "
+             "all masks with exactly 9 cells (1x9, 3x3, 9x1) x 1 anisotropic off-origin geometry; 7 "
              "baseline sets (K = 1,1,3,2,4,5,2) x preload on/off each; util: n,K in 1..4; inv: all 3x3 masks with >= 2 "
              "unmasked pixels x a rotating fifth of the 50 ordered object lists (length 1..2 over rectA,rectB,del,func,"
              "funcS with regularization flags), every second 2x3/3x2 mask x a 4-list menu, every 7th 4x4 mask with <= 3 masked "
@@ -58,6 +59,7 @@ GEOMS = [
     ((1.1, 0.2), (-0.6, 0.45)),
 ]
 GENERAL_GEOM = 3
+QUICK_GEOMS = (0, 3, 5)  # one geometry per pixel-scale pair, both origins represented
 
 COEFFS = (1.0, -2.0, 5e-4)
 VIS_COEFFS = (1.0 + 0.0j, 0.0 + 1.0j, -1.0 - 2.0j)
@@ -191,6 +193,8 @@ def cases(tier, seed):
     cells = 8 if quick else 10
     for (h, w, bits) in dom.all_mask_cases(cells):
         for g in range(len(GEOMS)):
+            if quick and h * w > 6 and g not in QUICK_GEOMS:
+                continue
             yield ["dft", h, w, bits, g, seed]
     extra = [(1, 9), (3, 3), (9, 1)] if quick else [(1, 11), (11, 1), (1, 12), (2, 6), (3, 4), (4, 3), (6, 2), (12, 1)]
     for (h, w) in extra:
